@@ -202,7 +202,7 @@ PROPS["C13"] = dict(
                 "(also one-rule-per-line) annotations, quoted rule names, trailing comma, blank lines, rule order. Relation between runs: same Check verdict, same AST modulo comments (rule order normalised when "
                 "permuted), same verdict on a shared batch of documents; and for documents, the same verdict under re-spelling. Sampled."),
     level_note="trusted: that each printer style knob is meaning-preserving (they were validated against the pinned tree: all combinations are accepted identically there); duplicate-key documents are not reordered",
-    rule=("schema pairs: model x 1-5 rewrites drawn from 10 kinds; documents: the example, instances and structural mutants (6-7 per schema). non-trivial = >=2 rewrite kinds and the schema has an annotation; "
+    rule=("schema pairs: model x 1-5 rewrites drawn from 11 kinds (incl. bare // annotations); documents: the example, instances and structural mutants (6-7 per schema). non-trivial = >=2 rewrite kinds and the schema has an annotation; "
           "document pairs: blanks / property order / per-rune escape spelling (raw, \\uXXXX both cases, short escapes, surrogate pairs); non-trivial = some token changed. distinct by (canonical, respelled)"),
     assumptions=["printer styles are meaning-preserving by the language definition (new-line conventions, comments and annotation forms are listed in the statement)"],
     jobs=[job("schema", "^TestSchemaRespelling$", (4, 16), (4000, 15000), (600, 3000)),
@@ -287,7 +287,7 @@ PROPS["C11"] = dict(
           "(several types, or alternatives, missing required keys, overlapping key shortcuts, allOf from two parents); non-trivial = a rewritten site iterated a map with >=2 entries (counted by the hook); "
           "distinct by the step list / spec"),
     assumptions=["error messages are not compared (required-key messages list keys in map order by design), only verdict, code, position and file"],
-    jobs=[job("histories", "^TestHistories$", (4, 16), (1000, 4000), (900, 3000)),
+    jobs=[job("histories", "^TestHistories$", (4, 16), (2000, 6000), (900, 3000)),
           job("map-orders", "^TestMapOrders$", (4, 16), (800, 6000), (900, 3000), pkg="c11m")],
 )
 PROPS["C12"] = dict(
